@@ -96,9 +96,9 @@ cdef double complex cf_csqrt(const double complex z) noexcept nogil:
     # Handle special cases.
     if z_imag == 0.0:
         if z_real == 0.0:
-            return cf_build_dblcmplx(0., 0.)
+            return cf_build_dblcmplx(0., z_imag)
         elif z_real > 0.0:
-            return cf_build_dblcmplx(sqrt(z_real), 0.0)
+            return cf_build_dblcmplx(sqrt(z_real), z_imag)
 
     if isinf(z_imag):
         # Return inf +- inf (where sign is the same as input)
@@ -110,21 +110,21 @@ cdef double complex cf_csqrt(const double complex z) noexcept nogil:
 
     if isinf(z_real):
         # csqrt(-inf + NaN i) = NaN +- inf i
-        # csqrt(-inf + y i)   = 0   +  inf i
+        # csqrt(-inf + y i)   = 0   +- inf i  (sign of y)
         # csqrt(inf + NaN i)  = inf +  NaN i
-        # csqrt(inf + y i)    = inf +  0 i
+        # csqrt(inf + y i)    = inf +- 0 i    (sign of y)
         
         if signbit(z_real):
             # Negative z_real
             if isnan(z_imag):
                 return cf_build_dblcmplx(NAN, INFINITY)
             else:
-                return cf_build_dblcmplx(0., INFINITY)
+                return cf_build_dblcmplx(0., copysign(INFINITY, z_imag))
         else:
             if isnan(z_imag):
                 return cf_build_dblcmplx(INFINITY, NAN)
             else:
-                return cf_build_dblcmplx(INFINITY, 0.)
+                return cf_build_dblcmplx(INFINITY, copysign(0., z_imag))
 
     # The remaining special case (b is NaN) is handled just fine by the normal code path below.
     # Scale to avoid overflow.
